@@ -39,7 +39,7 @@ LEVEL_TEXT = {
             "(operator trees of every arity the model has); so a coherent world stays coherent under every assignment that returns normally, and in a "
             "coherent world every immediately bound property equals its expression recomputed from scratch. (3) Growth (PropGrow.v): coherence is established "
             "and kept by every history that creates properties, attaches plain observers, binds fresh properties (immediate mode, expressions over existing "
-            "properties incl. bound ones, repeated inputs) and assigns to inputs; also by histories that bind existing properties, unbound or already bound (which may have readers; rebinding is reset() then assignment), call reset(), destroy properties that no live binding reads move-construct any property and move-assign over destinations no live binding reads (PropMove.v: every tree abstracts to the old one with the source renamed, the invariant is stable under renaming). "
+            "properties incl. bound ones, repeated inputs) and assigns to inputs; also by histories that bind existing properties, unbound or already bound (which may have readers; rebinding is reset() then assignment), call reset(), destroy properties that no live binding reads move-construct any property and move-assign over destinations no live binding reads (PropMove.v: every tree abstracts to the old one with the source renamed, the invariant is stable under renaming); also in MIXED worlds (PropMixed.v: evaluator objects, fresh properties bound through an evaluator, evaluateAll - an evaluator-driven property is an input of the immediate bindings reading it). "
             "PARTIAL: observers that write are covered by the extracted checker check_c02 on every reached world and by correspondence; known finding "
             "KF-C02-aborted-walk (an exception cutting a notification walk short) is re-confirmed on every run.", '6/C02'),
     'C03': ("Machine-checked on the executable model of Property::setHelper: an equal value changes nothing and logs nothing; any other value notifies every "
